@@ -105,6 +105,8 @@ def base_spelling(case: dict, c: int, b: int, prefix: str = "", canonical: bool 
         return f"C{b}"
     if layout == "nest":  # attribute chain through the holder class (a nested class sees module-level names directly)
         return f"H.C{b}" if case["mods"][b - 1].endswith(".H") else f"C{b}"
+    if layout in ("nest2", "nest2d"):  # dotted chain of three components through two holder classes
+        return f"H.M.C{b}" if case["mods"][b - 1].endswith(".H.M") else f"C{b}"
     if layout == "as":
         return f"K{b}"
     if layout == "attr":
@@ -137,7 +139,7 @@ def class_chunk(case: dict, c: int, prefix: str = "", canonical: bool = False, g
 def import_lines(case: dict, module: str, prefix: str = "", guarded: bool = False) -> list:
     """Import statements of `module` ('ma' / 'mb' / 'mc' / 'md') under the layout."""
     layout, n = case["layout"], case["n"]
-    if layout in ("one", "sub", "nest"):
+    if layout in ("one", "sub", "nest", "nest2", "nest2d"):
         return []
     mods = case["mods"]
 
@@ -178,6 +180,17 @@ def render(case: dict, prefix: str = "", guarded: bool = False) -> dict:
         outer = [class_chunk(case, c, prefix) for c in range(1, case["n"] + 1) if not case["mods"][c - 1].endswith(".H")]
         body = "\n".join("\n".join("    " + ln if ln else ln for ln in chunk.split("\n")) for chunk in inner)
         return {prefix + "ma": "class H:\n" + body + "\n" + "\n".join(outer)}
+    if case["layout"] in ("nest2", "nest2d"):  # classes 1..cut are members of ma.H.M; "nest2d": decoys ma.H.Cb at the shorter path
+        def indent(text: str, k: int) -> str:
+            return "\n".join(" " * k + ln if ln else ln for ln in text.split("\n"))
+        inner = [c for c in range(1, case["n"] + 1) if case["mods"][c - 1].endswith(".H.M")]
+        outer = [c for c in range(1, case["n"] + 1) if c not in inner]
+        mem = sorted(case["attr"][0])
+        decoys = ""
+        if case["layout"] == "nest2d":
+            decoys = "".join(f"    class C{c}:\n" + ("".join(f"        {m} = 'decoy'\n" for m in mem) or "        pass\n") + "\n" for c in inner)
+        src = "class H:\n" + decoys + "    class M:\n" + "\n".join(indent(class_chunk(case, c, prefix), 8) for c in inner)
+        return {prefix + "ma": src + "\n" + "\n".join(class_chunk(case, c, prefix) for c in outer)}
     present = {"one": ["ma"], "sub": ["ma"], "chain": ["mb", "mc", "ma"], "chain2": ["mb", "mc", "md", "ma"]}.get(case["layout"], ["mb", "ma"])
     for module in present:
         lines = import_lines(case, module, prefix, guarded)
@@ -249,6 +262,17 @@ def cpython_view(case: dict) -> dict:
 def check_reference(case: dict) -> str | None:
     """None when the spec's CPython transcription (PyLin, ExistsExt, PyGetattr) equals CPython on this case."""
     py = cpython_view(case)
+    if case["layout"] in ("nest2", "nest2d") and all(r["ok"] for r in case["ref"]):
+        ns: dict = {"__name__": "ma"}
+        exec(compile(render(case)["ma"], "<c07deep>", "exec", dont_inherit=True), ns)  # noqa: S102
+        for c in range(1, case["n"] + 1):
+            k = ns
+            for part in class_path(case, c).split(".")[1:]:
+                k = k[part] if isinstance(k, dict) else getattr(k, part)
+            got = ["ma." + x.__qualname__ for x in k.__mro__ if x is not object]
+            want = [class_path(case, x) for x in case["ref"][c - 1]["order"]]
+            if got != want:
+                return f"written source: {class_path(case, c)}.__mro__ = {got}, reference {want}"
     if "del" in py and (py["del"] == "deleted") != bool(case["delop"]["had"]):
         return f"del C{case['delop']['cls']}.{case['delop']['name']}: CPython {py['del']}, reference says own member = {case['delop']['had']}"
     for c in range(1, case["n"] + 1):
